@@ -99,6 +99,21 @@ def random_order(rng, k=None, kmax=8):
     return rng.choice(ORDERS)(rng, k)
 
 
+def as_iterable(els, how):
+    """The element collection handed to a constructor: a list, a tuple, or a ONE-SHOT iterable
+    (generator, map object, list iterator) — the resulting poset must be the same."""
+    els = list(els)
+    if how == 'tuple':
+        return tuple(els)
+    if how == 'gen':
+        return (x for x in els)
+    if how == 'map':
+        return map(int, els)
+    if how == 'iter':
+        return iter(els)
+    return els
+
+
 def covers_of(m):
     k = len(m)
     return [(a, b) for a in range(k) for b in range(k) if a != b and m[a][b] and
